@@ -23,6 +23,8 @@ type zzStream struct {
 	writes  int
 	failAt  int // fail the k-th Write (1-based) when > 0
 	eof     bool
+	closeErr    bool // Close reports an error (the connection is closed nevertheless)
+	blockWrites int  // when > 0: the n-th Write (1-based) and later ones block until the stream is closed
 }
 
 var errZZClosed = errors.New("use of closed connection")
@@ -60,6 +62,11 @@ func (s *zzStream) Write(p []byte) (int, error) {
 	default:
 	}
 	s.mu.Lock()
+	if s.blockWrites > 0 && s.writes+1 >= s.blockWrites {
+		s.mu.Unlock()
+		<-s.closed
+		return 0, errZZClosed
+	}
 	defer s.mu.Unlock()
 	s.writes++
 	if s.failAt > 0 && s.writes == s.failAt {
@@ -71,6 +78,9 @@ func (s *zzStream) Write(p []byte) (int, error) {
 
 func (s *zzStream) Close() error {
 	s.once.Do(func() { close(s.closed) })
+	if s.closeErr {
+		return errors.New("close: connection reset by peer")
+	}
 	return nil
 }
 
